@@ -228,7 +228,7 @@ def check_scheme_total(ctx, rule, P, f, root, adt="SignatureSchemes", variants=N
         oks = [b for b in R.ok_blocks(f) if b in sev.exit_state]
         for b in sorted(f.cfg.reachable):
             t = f.blocks[b]["term"]
-            if b in sev.exit_state and t["k"] == "call" and t.get("dest") == {"l": 0} and (t.get("callee") or {}).get("name") != "from_residual":
+            if b in sev.exit_state and t["k"] == "call" and "p" not in (t.get("dest") or {"p": 1}) and t["dest"].get("l") in R.return_aliases(f) and (t.get("callee") or {}).get("name") != "from_residual":
                 oks.append(b)
         n += 1 if oks else 0
         ctx.ob(rule, "%s@%s" % (f.key, V), bool(oks), "with %s%s = %s the function %s" % (root[0], root[1], V, "can succeed" if oks else "has no success path: this scheme is refused"), where=where(f))
